@@ -28,6 +28,28 @@ def card_fn(setty):
 
 
 class ExprMixin:
+    # ------------------------------------------------------------------ element set of a sequence
+    def seqset_fn(self, sty):
+        """elems(s): the set of elements of sequence s, with a skolem index witness (no ∃ in clauses)."""
+        key = sty.name
+        if key not in self._seqset:
+            es = T.Set(sty.elem)
+            f = z3.Function("elems_" + T._mangle(key), sty.sort(), es.sort())
+            w = z3.Function("widx_" + T._mangle(key), sty.sort(), sty.elem.sort(), z3.IntSort())
+            s_ = z3.Const("s", sty.sort())
+            i = z3.Int("i")
+            x = z3.Const("x", sty.elem.sort())
+            a1 = z3.ForAll([s_, i], z3.Implies(z3.And(0 <= i, i < sty.sort().len(s_)), z3.Select(f(s_), z3.Select(sty.sort().arr(s_), i))),
+                           patterns=[z3.MultiPattern(f(s_), z3.Select(sty.sort().arr(s_), i))])
+            a2 = z3.ForAll([s_, x], z3.Implies(z3.Select(f(s_), x), z3.And(0 <= w(s_, x), w(s_, x) < sty.sort().len(s_), z3.Select(sty.sort().arr(s_), w(s_, x)) == x)),
+                           patterns=[z3.Select(f(s_), x)])
+            self.axioms.extend([a1, a2])
+            self._seqset[key] = (f, w)
+        return self._seqset[key][0]
+
+    def elems(self, sv):
+        return SV(self.seqset_fn(sv.ty)(sv.t), T.Set(sv.ty.elem))
+
     # ------------------------------------------------------------------ helpers
     def check(self, st, cond, kind, node, label=""):
         """Safety obligation (code mode only), then assume it."""
@@ -535,9 +557,8 @@ class ExprMixin:
         if isinstance(ty, T.Map):
             return z3.Select(ty.dom(cont.t), self.coerce(x, ty.key).t)
         if isinstance(ty, T.Seq):
-            i = z3.Int(fresh_name("i"))
             xe = self.coerce(x, ty.elem)
-            return z3.Exists([i], z3.And(0 <= i, i < ty.len(cont.t), z3.Select(ty.arr(cont.t), i) == xe.t))
+            return z3.Select(self.elems(cont).t, xe.t)
         raise Unsupported(f"`in` on {ty}")
 
     def ev_BinOp(self, node, st, want):
